@@ -32,7 +32,7 @@
 (* obs = [up, B |-> [tip |-> <<id,height>>, byH, hh], F |-> [tip, byH]]    *)
 (*   byH[p] = id read by FetchHeaderByHeight(p-1); hh[p] = HeightFromHash  *)
 (*   of that header.                                                       *)
-(* act = [op, run, res, inj, n, t, hs, cfg]                                *)
+(* act = [op, run, res, inj, sn, n, t, hs, cfg]                            *)
 (***************************************************************************)
 EXTENDS Integers, Sequences, FiniteSets
 
